@@ -30,6 +30,7 @@ func rulesC08(c *Ctx) {
 	}
 	parseTable := unitsC08(c, p.SSAFunc(pd))
 	ladderC08(c, p.SSAFunc(fdur), parseTable)
+	formatEvalC08(c, p.SSAFunc(fdur))
 	overflowC08(c, p.SSAFunc(pd))
 	slotsC08(c)
 }
@@ -308,6 +309,8 @@ func ladderC08(c *Ctx, f *ssa.Function, parse map[string]int64) {
 			key := "FormatDuration: final rung"
 			if ok && suffix == "ns" && div == 1 {
 				c.OK("C08.ladder", key, last.Pos(), "unconditional nanoseconds")
+			} else if !ok || rungs == 0 {
+				c.Unk("C08.ladder", key, last.Pos(), "the formatter is not an if-ladder of divisibility tests; its rungs are not extracted")
 			} else {
 				c.Bad("C08.ladder", key, last.Pos(), fmt.Sprintf("the ladder ends with suffix %q divisor %d; it must end with plain nanoseconds", suffix, div))
 			}
@@ -508,4 +511,87 @@ func slotsC08(c *Ctx) {
 		})
 	}
 	c.Floor("C08.slots", n, 12)
+}
+
+// formatEvalC08 evaluates FormatDuration by constant propagation on
+// representative durations (every unit's multiples, negative values, mixed
+// sums) and compares with "the largest unit that divides d".
+func formatEvalC08(c *Ctx, f *ssa.Function) {
+	p := c.P
+	c.Rule("C08.formateval", "FormatDuration, evaluated by constant propagation on representative durations of either sign, prints d in the largest unit that divides it (0 as 0s)")
+	units := []struct {
+		suffix string
+		ns     int64
+	}{{"w", 604800e9}, {"d", 86400e9}, {"h", 3600e9}, {"m", 60e9}, {"s", 1e9}, {"ms", 1e6}, {"u", 1e3}, {"ns", 1}}
+	want := func(d int64) string {
+		if d == 0 {
+			return "0s"
+		}
+		for _, u := range units {
+			if d%u.ns == 0 {
+				return fmt.Sprintf("%d%s", d/u.ns, u.suffix)
+			}
+		}
+		return ""
+	}
+	var samples []int64
+	samples = append(samples, 0)
+	for _, u := range units {
+		samples = append(samples, u.ns, 3*u.ns, -u.ns, -5*u.ns, u.ns+1, 7*u.ns+u.ns/1000)
+	}
+	samples = append(samples, 90e9, -90e9, 1500e6, 36*3600e9, 999, -999, 1001)
+	n, undecided := 0, 0
+	for _, d := range samples {
+		s := p.newSCCP()
+		r := s.run(f, []cval{cConst(constant.MakeInt64(d))}, 0)
+		var rets []*ssa.Return
+		for _, b := range f.Blocks {
+			if r.execB[b.Index] {
+				if ret, ok := b.Instrs[len(b.Instrs)-1].(*ssa.Return); ok {
+					rets = append(rets, ret)
+				}
+			}
+		}
+		key := fmt.Sprintf("FormatDuration(%d)", d)
+		if len(rets) != 1 {
+			undecided++
+			continue
+		}
+		got, ok := "", false
+		res := rets[0].Results[0]
+		if v := r.get(res); v.isPlain() && v.v.Kind() == constant.String {
+			got, ok = constant.StringVal(v.v), true
+		} else if call, isCall := res.(*ssa.Call); isCall && call.Call.StaticCallee() != nil && call.Call.StaticCallee().Name() == "Sprintf" {
+			fv := r.get(call.Call.Args[0])
+			args := varargsOf(call)
+			if fv.isPlain() && len(args) == 1 {
+				a := args[0]
+				if mi, isMI := a.(*ssa.MakeInterface); isMI {
+					a = mi.X
+				}
+				av := r.get(a)
+				if av.isPlain() {
+					num, _ := constant.Int64Val(constant.ToInt(av.v))
+					format := constant.StringVal(fv.v)
+					if strings.Count(format, "%") == 1 && strings.HasPrefix(format, "%d") {
+						got, ok = fmt.Sprintf(format, num), true
+					}
+				}
+			}
+		}
+		if !ok {
+			undecided++
+			continue
+		}
+		n++
+		if got != want(d) {
+			c.Bad("C08.formateval", key, f.Pos(), fmt.Sprintf("prints %q; the largest unit that divides it gives %q", got, want(d)))
+		} else {
+			c.OK("C08.formateval", key, f.Pos(), got)
+		}
+	}
+	if undecided > 0 {
+		c.Unk("C08.formateval", "FormatDuration: samples not evaluated", f.Pos(), fmt.Sprintf("%d of %d sample durations could not be evaluated by constant propagation (the formatter has a shape it cannot follow)", undecided, len(samples)))
+	}
+	_ = n
 }
